@@ -87,10 +87,10 @@ Theorem c07_still_serves_roster_request : forall fx, base_fixed fx -> crash_fixe
 Proof. exact serves_roster_request. Qed.
 Print Assumptions c07_still_serves_roster_request.
 
-Theorem c07_still_serves_protocol_message : forall fx, base_fixed fx -> crash_fixed fx -> forall s p nf from k t f,
+Theorem c07_still_serves_protocol_message : forall fx, base_fixed fx -> crash_fixed fx -> forall s p nf d from k t f,
   Inv s -> lookup (tk_tree k) (store s) = Some (Have t) ->
   will_deliver s t (mkP p from k BPing) f ->
-  let r := step fx s (Recv p false nf (MProto from (Some k) BPing)) in
+  let r := step fx s (Recv p false nf (MProto from (Some k) BPing d)) in
   r_out r = Ok /\ In (EDeliver k (tk_node f)) (r_events r).
 Proof. exact serves_protocol_message. Qed.
 Print Assumptions c07_still_serves_protocol_message.
@@ -113,12 +113,12 @@ Print Assumptions c07_legit_token_stays_unfinished.
 (* ... so after ANY history that is not the run's own Done nor a service re-registering its
    tree, a legitimate message on a stored tree still reaches the handler *)
 Theorem c07_still_serves_after_any_history : forall fx, base_fixed fx -> crash_fixed fx ->
-  forall ops s p nf from k t f,
+  forall ops s p nf d from k t f,
   Inv s -> lookup (tk_tree k) (store s) = Some (Have t) ->
   mem_tok k (finished s) = false -> search t (tk_node k) <> None -> proto_known (tk_proto k) = true ->
   deliverable t p from BPing f ->
   (forall o, In o ops -> ~ p_tree (touches o) (tk_tree k) /\ o <> LocalDone k) ->
-  let r := step fx (run fx s ops) (Recv p false nf (MProto from (Some k) BPing)) in
+  let r := step fx (run fx s ops) (Recv p false nf (MProto from (Some k) BPing d)) in
   r_out r = Ok /\ In (EDeliver k (tk_node f)) (r_events r).
 Proof. exact still_serves_after_any_history. Qed.
 Print Assumptions c07_still_serves_after_any_history.
@@ -126,12 +126,12 @@ Print Assumptions c07_still_serves_after_any_history.
 (* a run on a tree the server lacks and nobody was asked for: the sender is asked (any
    variant, the current code included); with F71 also when others were asked before - the
    current code lacks F71 for that case: c07_f71_refuted ... *)
-Theorem c07_asks_sender_for_tree : forall fx, base_fixed fx -> crash_fixed fx -> forall s p nf from k b,
+Theorem c07_asks_sender_for_tree : forall fx, base_fixed fx -> crash_fixed fx -> forall s p nf d from k b,
   Inv s -> b <> BGarbage -> reachable p = true ->
   (lookup (tk_tree k) (store s) = None \/
    (f71 fx = true /\
     exists asked, lookup (tk_tree k) (store s) = Some (Req asked) /\ mem_nat p asked = false)) ->
-  let r := step fx s (Recv p false nf (MProto from (Some k) b)) in
+  let r := step fx s (Recv p false nf (MProto from (Some k) b d)) in
   r_out r = Ok /\
   In (ESend p (RReqTree (tk_tree k))) (r_events r) /\
   In (mkP p from k b) (parked (r_state r)) /\
@@ -183,7 +183,7 @@ Print Assumptions c07_crash_defects_confined.
 Example c07_benign_hist_satisfiable :
   benign_hist crash_unfixed init
     [LocalTree (mkTree 1 (mkRo 1 [mkMem 1 true; mkMem 4 true; mkMem 2 true]) (TM 1 1 [TM 4 4 []; TM 2 2 []]));
-     Recv 1 false false (MProto (Some (mkTok 1 1 1 0 90 1)) (Some (mkTok 1 1 1 0 90 4)) BPing);
+     Recv 1 false false (MProto (Some (mkTok 1 1 1 0 90 1)) (Some (mkTok 1 1 1 0 90 4)) BPing 0);
      Recv 3 false false (MReqRoster 1);
      Recv 3 false false (MRespTree (Some (mkTMar 2 1 [TM 1 1 []])) (Some (mkRo 1 [mkMem 1 true])))].
 Proof. exact benign_hist_satisfiable. Qed.
@@ -264,7 +264,7 @@ Proof. exact f73_forged_requested_tree. Qed.
 Print Assumptions c07_f73_forged_requested_tree.
 
 Theorem c07_pinned_code_refuted :
-  In (Crashed CNilTo) (outs none_fixed [Recv 3 false false (MProto (Some (kfrom 1 20 1)) None BPing)]) /\
+  In (Crashed CNilTo) (outs none_fixed [Recv 3 false false (MProto (Some (kfrom 1 20 1)) None BPing 0)]) /\
   In (Crashed CNoChildren) (outs none_fixed [ping 1 2 12 1; Recv 3 false false (MRespTree (Some (mkTMar 2 1 [])) (Some roG))]) /\
   In (Crashed CNilTreeInStore) (outs none_fixed [ping 1 2 12 1; Recv 3 false false (MReqRoster 9)]) /\
   leaked (run none_fixed init [Recv 3 false false (MRoster roH)]) = [LPTree].
@@ -309,3 +309,9 @@ Theorem c07_no_wakeup_after_close : forall pm t s ev,
              forall k f, In (EDeliver k f) (evs m') -> In (EDeliver k f) ev.
 Proof. exact no_wakeup_after_close. Qed.
 Print Assumptions c07_no_wakeup_after_close.
+
+(* the message type a peer declares in a ProtocolMsg is never read *)
+Theorem c07_declared_type_ignored : forall fx s p c nf from to b d d',
+  step fx s (Recv p c nf (MProto from to b d)) = step fx s (Recv p c nf (MProto from to b d')).
+Proof. exact declared_type_ignored. Qed.
+Print Assumptions c07_declared_type_ignored.
